@@ -578,25 +578,25 @@ End Flood.
 (* ================================================================ the results for flood_fill *)
 
 Lemma flood_fill_loop fuel v m sx sy p border m' :
-  flood_fill fuel v m sx sy p border = Ok m' ->
+  flood_fill_pat fuel v m sx sy p border = Ok m' ->
   m' = m \/ (open m v border sx sy /\ flood_loop fuel v p border m [(sx, sx, sy, 0)] = Ok m').
 Proof.
-  unfold flood_fill. destruct (in_view v sx sy) eqn:Ev; cbn [negb]; [|intro H; left; congruence].
+  unfold flood_fill_pat. destruct (in_view v sx sy) eqn:Ev; cbn [negb]; [|intro H; left; congruence].
   destruct (pix m sx sy =? border) eqn:Eb; [intro H; left; congruence|].
   intro H. right. split; [|exact H]. split; [exact Ev|now apply Z.eqb_neq].
 Qed.
 
 Lemma flood_fill_open fuel v m sx sy p border :
   open m v border sx sy ->
-  flood_fill fuel v m sx sy p border = flood_loop fuel v p border m [(sx, sx, sy, 0)].
+  flood_fill_pat fuel v m sx sy p border = flood_loop fuel v p border m [(sx, sx, sy, 0)].
 Proof.
-  intros [Hv Hb]. unfold flood_fill. rewrite Hv. cbn [negb]. apply Z.eqb_neq in Hb. now rewrite Hb.
+  intros [Hv Hb]. unfold flood_fill_pat. rewrite Hv. cbn [negb]. apply Z.eqb_neq in Hb. now rewrite Hb.
 Qed.
 
 (* SOUNDNESS, every pattern (solid, tile, tile with background): every changed cell lies in the region of
    the seed and holds the tile's attribute for its position *)
 Theorem flood_sound_pat fuel v m sx sy p border m' :
-  covers m v -> flood_fill fuel v m sx sy p border = Ok m' ->
+  covers m v -> flood_fill_pat fuel v m sx sy p border = Ok m' ->
   forall x y, pix m' x y <> pix m x y -> region m v border sx sy x y /\ pix m' x y = tile_at p x y.
 Proof.
   intros Hcov Hrun x y Hne.
@@ -608,9 +608,9 @@ Qed.
 
 (* no-op cases: seed outside the viewport or on a border cell *)
 Theorem flood_noop_pat fuel v m sx sy p border :
-  in_view v sx sy = false \/ pix m sx sy = border -> flood_fill fuel v m sx sy p border = Ok m.
+  in_view v sx sy = false \/ pix m sx sy = border -> flood_fill_pat fuel v m sx sy p border = Ok m.
 Proof.
-  unfold flood_fill. intros [H|H].
+  unfold flood_fill_pat. intros [H|H].
   - now rewrite H.
   - destruct (negb (in_view v sx sy)); [reflexivity|]. apply Z.eqb_eq in H. now rewrite H.
 Qed.
@@ -619,9 +619,9 @@ Qed.
    (width+2)*(height+2)*2 iterations suffice *)
 Theorem flood_terminates_pat fuel v m sx sy p border :
   stops_on_tile p -> covers m v -> (paint_fuel v <= fuel)%nat ->
-  exists m', flood_fill fuel v m sx sy p border = Ok m'.
+  exists m', flood_fill_pat fuel v m sx sy p border = Ok m'.
 Proof.
-  intros Hplain Hcov Hfuel. unfold flood_fill.
+  intros Hplain Hcov Hfuel. unfold flood_fill_pat.
   destruct (in_view v sx sy) eqn:Ev; cbn [negb]; [|now exists m].
   destruct (pix m sx sy =? border) eqn:Eb; [now exists m|].
   assert (Hseed : open m v border sx sy) by (split; [exact Ev|now apply Z.eqb_neq]).
@@ -635,7 +635,7 @@ Qed.
 (* COMPLETENESS for the same patterns: if no cell of the region shows the tile beforehand, the whole region
    is painted with the tile *)
 Theorem flood_complete_pat fuel v m sx sy p border m' :
-  stops_on_tile p -> covers m v -> flood_fill fuel v m sx sy p border = Ok m' ->
+  stops_on_tile p -> covers m v -> flood_fill_pat fuel v m sx sy p border = Ok m' ->
   (forall x y, region m v border sx sy x y -> pix m x y <> tile_at p x y) ->
   forall x y, region m v border sx sy x y -> pix m' x y = tile_at p x y.
 Proof.
@@ -652,7 +652,7 @@ Lemma solid_stops fill : stops_on_tile (solid_pat fill).
 Proof. now apply stops_on_tile_solid. Qed.
 
 Theorem flood_sound fuel v m sx sy fill border m' :
-  covers m v -> flood_fill fuel v m sx sy (solid_pat fill) border = Ok m' ->
+  covers m v -> flood_fill fuel v m sx sy fill border = Ok m' ->
   forall x y, pix m' x y <> pix m x y -> region m v border sx sy x y /\ pix m' x y = fill.
 Proof.
   intros Hcov Hrun x y Hne.
@@ -662,15 +662,15 @@ Qed.
 
 Theorem flood_noop fuel v m sx sy fill border :
   in_view v sx sy = false \/ pix m sx sy = border ->
-  flood_fill fuel v m sx sy (solid_pat fill) border = Ok m.
+  flood_fill fuel v m sx sy fill border = Ok m.
 Proof. apply flood_noop_pat. Qed.
 
 Theorem flood_terminates v m sx sy fill border :
-  covers m v -> exists m', flood_fill (paint_fuel v) v m sx sy (solid_pat fill) border = Ok m'.
+  covers m v -> exists m', flood_fill (paint_fuel v) v m sx sy fill border = Ok m'.
 Proof. intro Hcov. apply flood_terminates_pat; [apply solid_stops|exact Hcov|lia]. Qed.
 
 Theorem flood_complete fuel v m sx sy fill border m' :
-  covers m v -> flood_fill fuel v m sx sy (solid_pat fill) border = Ok m' ->
+  covers m v -> flood_fill fuel v m sx sy fill border = Ok m' ->
   (forall x y, region m v border sx sy x y -> pix m x y <> fill) ->
   forall x y, region m v border sx sy x y -> pix m' x y = fill.
 Proof.
@@ -683,7 +683,7 @@ Qed.
 (* ---- the statement level: paint_ with its argument checks *)
 Lemma paint_ok text_mode num_attr fg v m x y c b m' :
   paint text_mode num_attr fg v m x y c b = Ok m' ->
-  flood_fill (paint_fuel v) v m x y (solid_pat (fill_of num_attr fg c)) (border_of num_attr fg c b) = Ok m'.
+  flood_fill (paint_fuel v) v m x y (fill_of num_attr fg c) (border_of num_attr fg c b) = Ok m'.
 Proof.
   unfold paint, fill_of, border_of, border_index, fill_index.
   destruct text_mode; [discriminate|].
@@ -703,7 +703,7 @@ Proof.
            | |- context [if ?t then _ else _] => destruct t; cbn [bind]; try discriminate
            end;
     match goal with
-    | |- flood_fill _ ?v ?m ?x ?y (solid_pat ?f) ?bd <> _ =>
+    | |- flood_fill _ ?v ?m ?x ?y ?f ?bd <> _ =>
         destruct (flood_terminates v m x y f bd Hcov) as (m' & ->); discriminate
     end.
 Qed.
@@ -711,7 +711,7 @@ Qed.
 (* tiled statement: when it succeeds it is the flood fill with the given tile / background row *)
 Lemma paint_tile_ok text_mode num_attr fg v m x y tile b bg m' :
   paint_tile text_mode num_attr fg v m x y tile b bg = Ok m' ->
-  flood_fill (tile_fuel v) v m x y (mkPat false tile bg)
+  flood_fill_pat (tile_fuel v) v m x y (mkPat false tile bg)
              (attr_index num_attr fg (match b with Some bv => bv | None => -1 end)) = Ok m'.
 Proof.
   unfold paint_tile.
